@@ -20,7 +20,7 @@ run_demo() {  # $1 = label
 }
 cargo build --offline >>"$LOG" 2>&1
 run_demo clean
-if ! git apply "$SD/patch.diff" >>"$LOG" 2>&1; then echo "$ID: PATCH DOES NOT APPLY"; exit 1; fi
+if ! git apply --3way "$SD/patch.diff" >>"$LOG" 2>&1; then echo "$ID: PATCH DOES NOT APPLY"; exit 1; fi
 if ! cargo build --offline >>"$LOG" 2>&1; then echo "$ID: DOES NOT COMPILE"; exit 1; fi
 run_demo mutated
 cargo test --workspace --no-fail-fast --offline > "$SD/confirm.tests.txt" 2>&1
